@@ -109,15 +109,100 @@ func LocalState(s any) string {
 	return strings.Join(parts, ";")
 }
 
-// StepL is Step; in addition every live schema's type-local state must be what it was before the call.
+// localRefs lists the type-local REFERENCE fields of a schema (map, slice, pointer, func, interface holding a pointer)
+// with the address each refers to (0 = nil). Fields of the embedded core.ZodTypeInternals are Snap's business.
+func localRefs(s any) (names []string, ptrs map[string]uintptr) {
+	ptrs = map[string]uintptr{}
+	v := reflect.ValueOf(s)
+	for v.IsValid() && (v.Kind() == reflect.Ptr || v.Kind() == reflect.Interface) {
+		if v.IsNil() {
+			return
+		}
+		v = v.Elem()
+	}
+	if !v.IsValid() || v.Kind() != reflect.Struct {
+		return
+	}
+	in := v.FieldByName("internals")
+	for in.IsValid() && (in.Kind() == reflect.Ptr || in.Kind() == reflect.Interface) {
+		if in.IsNil() {
+			return
+		}
+		in = in.Elem()
+	}
+	if !in.IsValid() || in.Kind() != reflect.Struct {
+		return
+	}
+	t := in.Type()
+	for i := 0; i < in.NumField(); i++ {
+		f := t.Field(i)
+		if f.Anonymous {
+			continue
+		}
+		fv := in.Field(i)
+		switch fv.Kind() {
+		case reflect.Map, reflect.Slice, reflect.Ptr, reflect.Func, reflect.Chan, reflect.UnsafePointer:
+			names = append(names, f.Name)
+			if !fv.IsNil() {
+				ptrs[f.Name] = fv.Pointer()
+			}
+		case reflect.Interface:
+			names = append(names, f.Name)
+			if !fv.IsNil() {
+				e := fv.Elem()
+				switch e.Kind() {
+				case reflect.Map, reflect.Slice, reflect.Ptr, reflect.Func, reflect.Chan, reflect.UnsafePointer:
+					ptrs[f.Name] = e.Pointer()
+				default:
+					ptrs[f.Name] = 1 // a non-reference value boxed in the interface
+				}
+			}
+		}
+	}
+	return
+}
+
+// LocalSharing renders what a call did to each type-local reference field of its result, relative to the receiver:
+// s = the same reference, f = another one, n = nil while the receiver's is not, N = nil in both ("L:-": the result has none
+// or is of another type family).
+func LocalSharing(recv, res any) string {
+	if !sameFamily(recv, res) {
+		return "L:-"
+	}
+	names, rp := localRefs(res)
+	_, zp := localRefs(recv)
+	if len(names) == 0 {
+		return "L:-"
+	}
+	var parts []string
+	for _, n := range names {
+		a, b := rp[n], zp[n]
+		l := "f"
+		switch {
+		case a == 0 && b == 0:
+			l = "N"
+		case a == 0:
+			l = "n"
+		case a == b:
+			l = "s"
+		}
+		parts = append(parts, n+"="+l)
+	}
+	return "L:" + strings.Join(parts, ",")
+}
+
+// StepL is Step; in addition every live schema's type-local state must be what it was before the call, and the step
+// token list gets a 10th token: what the call did to the type-local reference fields of its result (LocalSharing).
 func (h *Hist) StepL(ri int, method string, variant int, o *hx.Out) bool {
 	before := make([]string, len(h.Live))
 	for i, l := range h.Live {
 		before[i] = LocalState(l.S)
 	}
+	recvS := h.Live[ri].S
 	if !h.Step(ri, method, variant, o) {
 		return false
 	}
+	h.Steps[len(h.Steps)-1] += " " + LocalSharing(recvS, h.Live[len(h.Live)-1].S)
 	last := len(h.Verd) - 1
 	fresh, list, _ := strings.Cut(h.Verd[last], ":")
 	have := map[string]bool{}
@@ -147,3 +232,6 @@ func (h *Hist) StepL(ri int, method string, variant int, o *hx.Out) bool {
 	}
 	return true
 }
+
+// ShortType is the schema type name without package and type arguments (the Type of the method table).
+func ShortType(x any) string { return shortType(x) }
